@@ -205,7 +205,10 @@ pub fn cli_check(s: &str) -> CaseResult {
     // (no mode flag; stdin is empty), self-play, simple printing
     let mode: &[&str] = [&["-T", "-d", "1"][..], &[][..], &["-P"][..], &["-S", "-d", "2"][..]][(fp(&s) % 4) as usize];
     let shown = format!("walleye --fen={:?} {}", s, mode.join(" "));
-    let mut child = std::process::Command::new(&bin).current_dir(&dir).arg(format!("--fen={}", s)).args(mode).stdin(std::process::Stdio::null()).stdout(std::process::Stdio::piped()).stderr(std::process::Stdio::piped()).spawn().map_err(|e| format!("HARNESS: cannot run {}: {}", bin, e))?;
+    // `--fen=<s>` carries empty and dash-leading values; clap swallows a second `=`, so a value that
+    // itself starts with `=` is passed as a separate argument instead
+    let fen_args: Vec<String> = if s.starts_with('=') { vec!["--fen".into(), s.to_string()] } else { vec![format!("--fen={}", s)] };
+    let mut child = std::process::Command::new(&bin).current_dir(&dir).args(&fen_args).args(mode).stdin(std::process::Stdio::null()).stdout(std::process::Stdio::piped()).stderr(std::process::Stdio::piped()).spawn().map_err(|e| format!("HARNESS: cannot run {}: {}", bin, e))?;
     let t0 = std::time::Instant::now();
     loop {
         match child.try_wait() {
